@@ -62,6 +62,21 @@ pub fn gen_pool(g: &mut Gen, long: bool) -> Vec<N> {
     let n = g.range(1, 6);
     let mut pool: Vec<N> = Vec::new();
     for i in 0..n {
+        if i > 0 && g.chance(1, 8) {
+            // the same octets with a different label boundary: "a.b" as one
+            // label next to the labels "a" and "b" (same dotted spelling,
+            // different name)
+            let base = g.pick_ref(&pool).clone();
+            if base.0.len() >= 2 && base.0[0].len() + base.0[1].len() + 1 <= 63 {
+                let mut joined = base.0[0].clone();
+                joined.push(b'.');
+                joined.extend_from_slice(&base.0[1]);
+                let mut labels = vec![joined];
+                labels.extend(base.0[2..].iter().cloned());
+                pool.push(N(labels));
+                continue;
+            }
+        }
         if i > 0 && g.chance(1, 3) {
             // a child or parent of an earlier name: shared suffixes
             let base = g.pick_ref(&pool).clone();
